@@ -659,3 +659,70 @@ def chunk_store(rep, prog, rule):
                         "%s: %s::<_, %d> assigns only %d of the %d components of its chunk"
                         % (f.name, short(h.name), cg[0], written, chunk))
     rep.floor(rule, "calls of multiply_components_of_rows", n, 3)
+
+
+def offset_flows(rep, prog, rule, floor=20):
+    """C02/C13: the column offset of a vertical pass reaches every source access."""
+    import re
+    from ..sym import Sym, fmt, short
+    rep.rule(rule, "in every vertical kernel (vert_convolution_into_one_row*) the index of every "
+             "source access -- the index argument of a SIMD load helper applied to source rows, the "
+             "`src_x` argument of a crate-local helper, a range get_unchecked(src_x..) on source "
+             "components -- depends on the kernel's column cursor src_x (which starts at offset * "
+             "components): an index computed from the destination position alone drops the offset, "
+             "the kernel then convolves other columns whenever the pass runs with a non-zero offset")
+    n = 0
+    for f in sorted(prog.fns.values(), key=lambda x: x.id):
+        if not re.match(r"^convolution::vertical_\w+::\w+::vert_convolution_into_one_row", f.name):
+            continue
+        if f.kind == "closure":
+            continue
+        cur = None
+        for i in range(1, f.arg_count + 1):
+            if f.local_name(i) in ("src_x", "start_src_x"):
+                cur = i
+        if cur is None:
+            continue
+        sym = Sym(f)
+
+        def depends(e):
+            s = fmt(e)
+            return bool(re.search(r"\b(start_)?src_x\b", s))
+
+        def is_src(buf):
+            """rows handed out by the source view's iterators (not a local spill array)"""
+            return bool(re.search(r"\bsrc|s_row|components(@bb\d+)?\(|next(@bb\d+)?\(", buf)) and \
+                not re.match(r"^\(?\w*buf\w* as ", buf)
+        for c in f.calls():
+            tg = prog.call_targets(c)
+            nm = c.method or short(c.name)
+            idx = None
+            what = None
+            if len(tg) == 1 and tg[0].kind != "closure":
+                h = tg[0]
+                for i in range(1, h.arg_count + 1):
+                    if h.local_name(i) == "src_x" and i - 1 < len(c.args):
+                        idx, what = c.args[i - 1], "%s(.., src_x = .., ..)" % short(h.name)
+                if idx is None and c.name.startswith(HELPER_MODS) and len(c.args) == 2 and \
+                        not short(c.name).startswith("store") and \
+                        (h.local_ty(1) or "").startswith("&[") and h.local_ty(2) == "usize":
+                    buf = fmt(sym.operand(c.args[0], (c.bb, "term")))
+                    if is_src(buf):
+                        idx, what = c.args[1], "%s(source row, ..)" % short(c.name)
+            if idx is None and nm == "get_unchecked" and len(c.args) == 2:
+                buf = fmt(sym.operand(c.args[0], (c.bb, "term")))
+                if is_src(buf):
+                    idx, what = c.args[1], "get_unchecked(source components, ..)"
+            if idx is None:
+                continue
+            n += 1
+            rep.touch(f)
+            e = sym.operand(idx, (c.bb, "term"))
+            key = "%s|%s|%s" % (f.name, what, re.sub(r"@bb\d+", "", fmt(e))[:50])
+            if depends(e):
+                rep.ok(rule, key, c.at, "index %s follows the cursor" % fmt(e)[:60])
+            else:
+                rep.bad(rule, key + "|offset-dropped", c.at,
+                        "%s: the source index %s of %s does not depend on src_x: the column offset of "
+                        "the pass is ignored for this access" % (f.name, fmt(e)[:80], what))
+    rep.floor(rule, "source accesses in the vertical kernels", n, floor)
